@@ -38,10 +38,13 @@ Proof.
   rewrite (c09_due_model cfg w st t Hw Hc Hn Hm H).
   unfold leafb in Hleaf.
   destruct (C09_encode_holds cfg w st Hw Hc Hn H t s e Ht Hleaf Hmil Hs He)
-    as [before [new [after [Hp [Ee [Eoff [Enil Econs]]]]]]].
+    as [before [new [after [Hp [Ee [Hu [Eoff [Enil Econs]]]]]]]].
   pose proof (c09_rows_of_model w st t before new after Hp) as Hrows.
   assert (Hdays : map row_day (rows_of (obs_of w st) t) = rev (map r_day new)).
   { rewrite Hrows, map_map, <- map_rev. reflexivity. }
+  assert (Hnil : map row_day (rows_of (obs_of w st) t) = [] -> new = []).
+  { rewrite Hdays. intros E. destruct new as [|x rest]; [reflexivity|]. exfalso.
+    apply (f_equal (@length Z)) in E. rewrite rev_length, map_length in E. discriminate. }
   assert (Hfirst : forall d0 ds, map row_day (rows_of (obs_of w st) t) = d0 :: ds ->
             exists x rest, new = x :: rest /\ zmin_list d0 ds = r_day x
                            /\ exists y, In y new /\ zmax_list d0 ds = r_day y).
@@ -57,9 +60,21 @@ Proof.
   cbn [obs_of o_rows]. split.
   - (* balancing on *)
     intros Hb. destruct (C09_late_holds cfg w st Hw Hc Hn H Hb t e Ht Hleaf Hmil He) as [L1 L2].
-    rewrite Hb in Ee. unfold used in Ee.
+    rewrite Hb in Ee, Hu. unfold used in Ee, Hu.
     split.
     { intros d Hd. unfold model_rows. rewrite obooked_model. apply L1. exact Hd. }
+    split.
+    { (* nothing reserved *)
+      intros Ed. pose proof (Hnil Ed) as En. subst new. unfold c09_norows_on. cbv zeta.
+      split; [apply Enil; reflexivity|]. split; [lia|].
+      pose proof Hp as [Hl _]. simpl in Hl.
+      split.
+      - unfold model_rows. rewrite obooked_model.
+        pose proof (c09_booked_grows cfg w st Hw Hc Hn H after before (k_res (gett w t)) (day_of (e - 1)) Hl) as Hg.
+        pose proof (frac_mono _ _ (cap cfg (k_res (gett w t)) (day_of (e - 1))) ltac:(lia) Hg). lia.
+      - exists (length (map row_obs (rev before))). split.
+        + rewrite (c09_model_rows_split st t before [] after Hp), app_length. lia.
+        + rewrite (c09_model_rows_split st t before [] after Hp), c09_firstn_app_exact, obooked_model. exact Ee. }
     intros d0 ds Ed. destruct (Hfirst d0 ds Ed) as [x [rest [En [Emin [y [Hy Emax]]]]]]. cbv zeta.
     rewrite Emin, Emax. subst new.
     destruct (Econs x rest eq_refl) as [_ [Es [_ Hnd]]]. rewrite Hb in Es. unfold used in Es.
@@ -73,7 +88,10 @@ Proof.
     + rewrite (c09_upto_task_model st t before x rest after Hp Hnd), obooked_model. exact Es.
     + rewrite (c09_before_task_model st t before (x :: rest) after Hp ltac:(discriminate)), obooked_model. exact Ee.
   - (* balancing off *)
-    intros Hb d0 ds Ed. destruct (Hfirst d0 ds Ed) as [x [rest [En [Emin _]]]]. cbv zeta.
+    intros Hb. split.
+    { intros Ed. pose proof (Hnil Ed) as En. unfold c09_norows_off. cbv zeta.
+      split; [apply Enil; exact En|]. split; [lia | exact (Eoff Hb)]. }
+    intros d0 ds Ed. destruct (Hfirst d0 ds Ed) as [x [rest [En [Emin _]]]]. cbv zeta.
     rewrite Emin. subst new. destruct (Econs x rest eq_refl) as [_ [Es [Eown _]]].
     split; [|exact (Eoff Hb)].
     unfold model_rows. rewrite obooked_t_model, <- (Eown Hb). exact Es.
